@@ -4,7 +4,7 @@ Driver for C18.  One request per line, fields separated by `|`, tokens inside a 
   R|<ty1>|<ty2>                  → `restr=<0|1> flat=<0|1>`
         is_sequence_type_restriction(ty1, ty2) by the model; flat = both types are in the region where
         the string-driven code and the AST agree by construction (see `Ty.flat`)
-  J|<xsd11 0/1>|<ty>|<value>     → `match=<r> inst=<r> treat=<r> spec=<T|F|-> fd=<0|1> fi=<0|1> dom=<0|1> fp=<0|1>`
+  J|<xsd11 0/1>[|<dflt> <p> <q>]|<ty>|<value>     (optional: statically known namespaces, see `NsCfg`)  → `match=<r> inst=<r> treat=<r> spec=<T|F|-> fd=<0|1> fi=<0|1> dom=<0|1> fp=<0|1>`
         r = T | F | E:<code>;  match = match_sequence_type, inst = `instance of`, treat = `treat as`
         (T = the operand is returned, F = XPDY0050),
         spec = SequenceType matching of XPath 3.1 with the model's restriction as subtype relation
@@ -14,8 +14,9 @@ Driver for C18.  One request per line, fields separated by `|`, tokens inside a 
         dom = value and type are inside the domain of the theorem `match_eq_spec`,
         fp = trigger of finding F18p (the parser rejects or corrupts this legal sequence type).
 
-  H|<xsd11 0/1>|<base is an inline function 0/1>|<pool: value>|<op>;<op>;…   → `hist=<e>;<e>;…`   (judgement history on function items)
-        op ::= jm <i> <ty> | ji <i> <ty> | jt <i> <ty> | ja <i> <ty> | p <i> <n> <0/1>^n     (1 = placeholder `?`;
+  H|<xsd11 0/1>|<unused>|<pool: n value^n>|<op>;<op>;…   → `hist=<e>;<e>;…`   (judgement history on function items)
+        op ::= jm <i> <ty> | ji <i> <ty> | jt <i> <ty> | ja <i> <ty> | c <i> <k> <ty> <ty> | p <i> <n> <0/1>^n
+        (c = member k of pool[i] passed through function($s as ty1) as ty2 {$s}: the new value is appended; T/F = accepted / XPTY0004)     (1 = placeholder `?`;
         ja = the item passed to a parameter declared with that type, spec `-`: function coercion is not modelled)
         e  ::= `-` for a partial application, else `<model>/<spec>/<q>/<r>`: model = answer of the model
         (partial applications typed as the code does), spec = XPath matching with partial applications
@@ -137,6 +138,9 @@ def pOp : P HOp
   | "ji" :: ts => do let (i, r) ← pNat ts; let (t, r) ← pTy r; pure (.jInst i t, r)
   | "jt" :: ts => do let (i, r) ← pNat ts; let (t, r) ← pTy r; pure (.jTreat i t, r)
   | "ja" :: ts => do let (i, r) ← pNat ts; let (t, r) ← pTy r; pure (.jArg i t, r)
+  | "c" :: ts => do
+      let (i, r) ← pNat ts; let (k, r) ← pNat r; let (t, r) ← pTy r; let (rt, r) ← pTy r
+      pure (.coerce i k t rt, r)
   | "p" :: ts => do
       let (i, r) ← pNat ts; let (n, r) ← pNat r; let (bits, r) ← pRep pNat n r
       pure (.papp i (bits.map (· != 0)), r)
@@ -149,15 +153,10 @@ def showRes : Res → String
 def b01 (b : Bool) : String := if b then "1" else "0"
 
 open EPV.Gen.C18 in
-def answer (line : String) : String :=
-  match line.splitOn "|" with
-  | ["R", a, b] =>
-    match parseAll pTy a, parseAll pTy b with
-    | some t1, some t2 => s!"restr={b01 (isRestriction tables t1 t2)} flat={b01 (t1.flat && t2.flat)}"
-    | _, _ => "bad-type"
-  | ["J", x, t, v] =>
-    match parseAll pTy t, parseAll pValue v with
-    | some ty, some val =>
+def judge (x : String) (cfg : NsCfg) (t v : String) : String :=
+  match parseAll pTy t, parseAll pValue v with
+  | some ty0, some val =>
+      let ty := ty0.resolve cfg
       let xsd11 := x == "1"
       let m := matchSt tables xsd11 true ty val
       let i := instanceOf tables xsd11 ty val
@@ -166,8 +165,25 @@ def answer (line : String) : String :=
         | .ok w => if w.length == val.length then "T" else "DIFF"
         | .error .XPDY0050 => "F"
         | .error e => showRes (.error e)
-      s!"match={showRes m} inst={showRes i} treat={tr} spec={sp} fd={b01 (trigF18d ty val)} fi={b01 (trigF18i ty val)} dom={b01 (domT ty val)} fp={b01 ty.parserGap} fk={b01 ty.hasTypeArg}"
-    | _, _ => "bad-judgement"
+      let pr := match val, ty with
+        | [.func sa sr], .func a r => if funcItemTestArg tables sa sr a r then "T" else "F"
+        | _, _ => match convertArg tables xsd11 ty val with
+          | .ok _ => "T" | .error .XPDY0050 => "F" | .error e => showRes (.error e)
+      s!"match={showRes m} inst={showRes i} treat={tr} spec={sp} fd={b01 (trigF18d ty val)} fi={b01 (trigF18i ty val)} dom={b01 (domT ty val)} fp={b01 ty.parserGap} fk={b01 ty.hasTypeArg} fn={b01 (ty0.trigF18n cfg)} param={pr} fpp={b01 (ty.gapAt false false true)}"
+  | _, _ => "bad-judgement"
+
+open EPV.Gen.C18 in
+def answer (line : String) : String :=
+  match line.splitOn "|" with
+  | ["R", a, b] =>
+    match parseAll pTy a, parseAll pTy b with
+    | some t1, some t2 => s!"restr={b01 (isRestriction tables t1 t2)} flat={b01 (t1.flat && t2.flat)}"
+    | _, _ => "bad-type"
+  | ["J", x, t, v] => judge x NsCfg.none t v
+  | ["J", x, c, t, v] =>
+    match (toks c).mapM (·.toNat?) with
+    | some [d, p, q] => judge x ⟨d, p, q⟩ t v
+    | _ => "bad-cfg"
   | ["T", t] =>
     match parseAll pTy t with
     | some ty =>
@@ -183,24 +199,26 @@ def answer (line : String) : String :=
       | _ => s!"text={txt}"
     | none => "bad-type"
   | ["H", x, _inl, v, opsS] =>
-    match parseAll pValue v, ((opsS.splitOn ";").filter (fun o => (toks o) ≠ [])).mapM (parseAll pOp) with
+    let pPool : P (List (List Item)) := fun ts => do let (n, r) ← pNat ts; pRep pValue n r
+    match parseAll pPool v, ((opsS.splitOn ";").filter (fun o => (toks o) ≠ [])).mapM (parseAll pOp) with
     | some pool, some ops =>
       let xsd11 := x == "1"
       let res := hRun tables xsd11 pool ops
-      -- walk the history once more for the spec pool and the taint flags
-      let step (st : List Item × List Bool × List String × List HOp) (opr : HOp × Option Res) :
-          List Item × List Bool × List String × List HOp :=
-        let (sp, fl, out, before) := st
+      -- walk the history once more: the pool of the specification (partial applications typed by `partialSig`,
+      -- converted values as the model computes them) and the flags
+      let step (st : List (List Item) × List (List Item) × List Bool × List String) (opr : HOp × Option Res) :
+          List (List Item) × List (List Item) × List Bool × List String :=
+        let (mp, sp, fl, out) := st
+        let mp' := (hStep tables xsd11 mp opr.1).1
+        let m := match opr.2 with | some r => showRes r | none => "-"
         match opr.1 with
-        | .papp i mask => (sp ++ [(sp.getD i default).partialApplySpec mask], fl ++ [fl.getD i false || !prefixMask mask], out ++ ["-"], before ++ [opr.1])
-        | .jArg i _ =>
-          let m := match opr.2 with | some r => showRes r | none => "?"
-          (sp, fl, out ++ [s!"{m}/-/{b01 (fl.getD i false)}/0"], before ++ [opr.1])
+        | .papp i mask => (mp', sp ++ [[(headItem (sp.getD i [])).partialApplySpec mask]], fl ++ [fl.getD i false || !prefixMask mask], out ++ ["-"])
+        | .coerce _ _ _ _ => (mp', sp ++ [mp'.getLastD []], fl ++ [false], out ++ [s!"{m}/-/0/0"])
+        | .jArg i _ => (mp', sp, fl, out ++ [s!"{m}/-/{b01 (fl.getD i false)}/0"])
         | .jMatch i t | .jInst i t | .jTreat i t =>
-          let m := match opr.2 with | some r => showRes r | none => "?"
-          let s := if specMatch (specTables xsd11) (isRestriction tables) t [sp.getD i default] then "T" else "F"
-          (sp, fl, out ++ [s!"{m}/{s}/{b01 (fl.getD i false)}/0"], before ++ [opr.1])
-      let (_, _, out, _) := (ops.zip res).foldl step (pool, pool.map (fun _ => false), [], [])
+          let s := if !t.specDefined then "-" else if specMatch (specTables xsd11) (isRestriction tables) t (sp.getD i []) then "T" else "F"
+          (mp', sp, fl, out ++ [s!"{m}/{s}/{b01 (fl.getD i false)}/0"])
+      let (_, _, _, out) := (ops.zip res).foldl step (pool, pool, pool.map (fun _ => false), [])
       "hist=" ++ ";".intercalate out
     | _, _ => "bad-history"
   | _ => "bad-line"
